@@ -178,6 +178,14 @@ def analyse(ctx, replace=None, only=None):
                                         continue
                                     R.check(entails(st, ln * isz - cs), "INV", "%s:%s" % (f.name, pn), loc, "returns with length*item_size <= current_size",
                                             "a path returns with length = %r, item_size = %r, current_size = %r: length*item_size <= current_size not established" % (ln, isz, cs))
+                                    # no storage means no capacity (aws_array_list_is_valid): a list that reports capacity without storage
+                                    # makes the next push write through NULL / fail its precondition
+                                    kd = "(%r)->data" % pa
+                                    dv = st.env.get(kd)
+                                    od = st.notes.get("orig", {}).get(kd)
+                                    if dv is not None and fk != "fail" and not (od is not None and dv == Poly.atom(od)) and entails(st, dv) and entails(st, -dv):
+                                        R.check(entails(st, cs) and entails(st, -cs), "INV", "%s:%s:no-storage-no-capacity" % (f.name, pn), loc, "data = NULL is stored together with current_size = 0",
+                                                "a path returns with data = NULL but current_size = %r: the list claims capacity it does not have (aws_array_list_is_valid is false; the next push goes through a NULL data pointer)" % cs)
                 fk = failure_kind(num, st, f, r)
                 if fk == "fail":
                     changed = []
@@ -351,6 +359,7 @@ def copy_rule(R, P):
 
 
 MUTANTS = [
+    {"name": "shrink-of-empty-keeps-capacity", "file": AL, "expect": "INV", "old": "                aws_mem_release(list->alloc, list->data);\n            }\n            list->data = raw_data;\n            list->current_size = ideal_size;", "new": "                aws_mem_release(list->alloc, list->data);\n                list->current_size = ideal_size;\n            }\n            list->data = raw_data;"},
     {"name": "copy-of-empty-keeps-old-length", "file": AL, "expect": "SEQ-LEN", "old": "            memcpy(to->data, from->data, copy_size);\n        }\n        to->length = from->length;", "new": "            memcpy(to->data, from->data, copy_size);\n            to->length = from->length;\n        }"},
     {"name": "ensure-capacity-compares-index", "file": AL, "expect": "POST",
      "old": "size_t new_size = next_allocation_size > necessary_size ? next_allocation_size : necessary_size;",
